@@ -304,7 +304,8 @@ func mutationsAt(enc []byte, idx int) (path string, kind string, muts []mutation
 		raw("int/bignum-tag", "bignum", mEncoding, ovr{bignum: true})
 	case rc.Bytes:
 		if n0.Embedded {
-			raw("embedded/trailing-byte", "trailing", mMalformed, ovr{trailing: true})
+			// opaque to the outer decoder (a []byte field): value oracle
+			raw("embedded/trailing-byte", "trailing", mValue, ovr{trailing: true})
 			break
 		}
 		by := func(op string, f func(d []byte) []byte) {
